@@ -130,7 +130,7 @@ static void rec_put(char c)
    cur.tok[(cur.ntok - 1) * TOKLEN + rec_toklen] = c; rec_toklen++;
 }
 // string streams: append-only buffers, identified by the address of their ostream part
-#define NSS 2
+#define NSS 4
 #define SSLEN 16
 struct SSBuf { void* os; int len; char buf[SSLEN]; };
 static SSBuf ssb[NSS];
@@ -159,6 +159,8 @@ extern "C" std::ostream& m_endl(std::ostream& os) { stream_put(&os, '\n'); retur
 extern "C" std::ostream& m_os_manip(std::ostream* os, std::ostream& (*pf)(std::ostream&)) { return pf(*os); }   // os << endl
 extern "C" void m_ss_ctor(std::stringstream* self)
 {
+   SSBuf* b = ss_find(static_cast<std::ostream*>(self));        // same storage constructed again: starts empty
+   if(b) { b->len = 0; b->buf[0] = 0; return; }
    if(nssb >= NSS) { rec_overflow = 1; return; }
    ssb[nssb].os = static_cast<std::ostream*>(self); ssb[nssb].len = 0; ssb[nssb].buf[0] = 0; nssb++;
 }
